@@ -363,4 +363,26 @@ CHECKS = {
                    "property says. A connection of a channel to itself and deletions of non-existent connections are documented no-ops and not judged.",
         assumptions=["one client: requests do not overlap each other", "no Stop while a Start call is executing"],
     ),
+    "C10": dict(
+        pkg=".", hdir="root", test="TestVerif_C10", wal=True,
+        quick=dict(shards=32, checks=25, timeout=900),
+        thorough=dict(shards=48, checks=500, timeout=3400),
+        technique="stateful property-based testing (rapid) over one source object driven through the real Start/CoreLoop/Stop: watchdog with goroutine-dump quiescence test, goroutine census, open-descriptor scan",
+        rule="rapid-generated life-cycle histories (1-3 rounds on the same object) for a scripted source on the real AnySource (ends itself with an error "
+             "block or a closed channel on command; Sample or StartRun can be made to fail once), TriangleSource, SimPulseSource, ErroringSource, "
+             "AbacoSource with an endless scripted packet producer, and AbacoSource with a real UDP receiver on a loopback port that first receives "
+             "nothing (failed start) and then real packets. Operations: Start, second Start while active, 1-4 concurrent Stops with generated "
+             "staggering (0-3 ms), Stop issued after / at once / 0.1-2 ms after the source was told to end itself, a second Stop round on the stopped "
+             "source, queued requests, START/STOP writing, raw-data archive requests of 50 / 500 / 10^6 samples (the last never completes), channel-count "
+             "changes between runs; every history ends with one more Configure+Start+Stop. non-trivial = >= 2 successful Starts on the object AND a "
+             "concurrent-Stop round or a Stop racing self-termination; distinct = FNV-64 of the case",
+        level_text="Start must succeed exactly when the source is inactive (and no failure was injected), leave it Active and deliver a block within "
+                   "8 s; a failed Start must leave it Inactive; every Start/Stop call must return (blocked at the same frame after 10 s and again 1.5 s "
+                   "later = violation, merely slow = inconclusive); once all Stop calls of a round have returned: state Inactive, no goroutine of the run "
+                   "left after 3 s of grace (census of goroutines executing dastard code against the pre-start census), writing reported stopped, no "
+                   "descriptor open under the output directory; the next Start on the same object, also after a failed one, must succeed.",
+        level_note="No Stop is issued while a Start call is executing (documented deliberate panic, unreachable through the RPC layer). Schedules are "
+                   "perturbed by generated staggering, not enumerated: interleavings of Stop vs. self-termination are sampled, not exhausted.",
+        assumptions=["Abaco clients call Configure before each Start (a finished run drops its packet producers, as in production)"],
+    ),
 }
